@@ -24,7 +24,8 @@ CONSTANTS
 \*   "Empty" = created, nothing ever committed
 Contents == {"New", "Old", "Empty"}
 \* what meta.json says (compared with this build's version and data hash)
-MetaVals == {"Absent", "Garbage", "OtherVersion", "OtherHash", "Current"}
+\*   "NoHash" = well-formed, this build's version, but no data hash recorded (a field lost or null)
+MetaVals == {"Absent", "Garbage", "NoHash", "OtherVersion", "OtherHash", "Current"}
 \*   "Absent"  no index directory      "NoIndex" directory exists, tantivy cannot open it
 IdxVals  == {"Absent", "NoIndex"} \cup Contents
 
@@ -71,7 +72,7 @@ Init == /\ \E c \in Consistent : meta = c[1] /\ idx = c[2]
 Fault == /\ pc = "stopped"
          /\ MaxFaults = 0 \/ faults < MaxFaults
          /\ faults' = IF MaxFaults = 0 THEN 0 ELSE faults + 1
-         /\ \/ meta' \in {"Absent", "Garbage"} /\ meta' # meta /\ idx' = idx
+         /\ \/ meta' \in {"Absent", "Garbage", "NoHash"} /\ meta' # meta /\ idx' = idx
             \/ idx' = "Absent" /\ idx # "Absent" /\ meta' = meta
          /\ UNCHANGED <<pc, mem, rmeta, rebuild, staged, deleted, view, ram, crashes>>
 
